@@ -187,10 +187,10 @@ def run(tier, seed, rng):
     for d, oo in candp[:8]:
         r = records[d['index']]
         off_rep, name, cls = oo['stack'][0]
-        m = _re.fullmatch(r"f(\d+)", name)
+        m = _re.fullmatch(r"f(\d+)|between 'f(\d+)' and 'f\d+'", name)
         if not m or cls != decl.cname(r['c']):
             continue
-        i = int(m.group(1))
+        i = int(m.group(1) or m.group(2))
         value = r['value'] if r['kind'] == 'pack' else pktprops.uncanon(r['outcome'].get('ok'))
         if not (isinstance(value, tuple) and value[0] == 'pkt'):
             continue
